@@ -563,6 +563,20 @@ fn run_wide(tgt: Tgt, mode: &Mode, o: WOpts, prog_s: &str, out: &mut Out, hist: 
     hist.add(&format!("wide-pipes={}", alone.len()));
     hist.add(&format!("wide-outcome={}", if obs.starts_with("err:unknown") { "err:unknown" } else { obs.split('[').next().unwrap_or("") }));
     hist.add(&format!("wide-opts={}", o.show()));
+    {
+        // same-named functions in the active file, and stage reports that carry a generated (renamed) entry name
+        let act = prog.active(o.on);
+        let fnames: Vec<String> = act.funcs().iter().filter(|f| !f.flags.contains('d')).map(|f| f.name.clone()).collect();
+        if fnames.iter().enumerate().any(|(i, n)| fnames[..i].contains(n)) {
+            hist.add("wide-same-named-functions");
+        }
+        if obs.starts_with("ok:") && !matches!(tgt, Tgt::Msl) {
+            let renamed = obs.split('(').skip(1).filter_map(|x| x.split(')').next()).any(|n| !act.funcs().iter().any(|f| f.name == n));
+            if renamed {
+                hist.add("wide-renamed-entry-reported");
+            }
+        }
+    }
     let mut fails: Vec<String> = Vec::new();
     if let CompileOutcome::Panic(p) = &result {
         fails.push(format!("panic {}", p));
